@@ -115,6 +115,11 @@ namespace sim
             case OP_D_STATE_CSS:
             case OP_D_TC_CS:
             case OP_D_PLUS_CS:
+            case OP_MUST_MSG:
+            case OP_TC_RN_MSG:
+            case OP_TC_ANY_RN_MSG:
+            case OP_TC_STD_RN_MSG:
+            case OP_TC_TYPE_RN_MSG:
                s.null = na;
                s.left = bit( a );
                break;
@@ -385,7 +390,7 @@ namespace sim
    namespace
    {
       const std::uint8_t grp_consume[] = { OP_SEQ2, OP_SEQ3, OP_SOR2, OP_SOR3, OP_UNTIL1, OP_UNTIL2, OP_REP2, OP_REP_MIN_MAX, OP_REP_MIN, OP_IF_THEN_ELSE, OP_STRICT, OP_STAR_STRICT, OP_REMATCH, OP_REMATCH2, OP_MINUS, OP_IF_APPLY, OP_RAW, OP_TC_RF, OP_TC_ANY_RF, OP_LIST, OP_PAD, OP_AT, OP_NOT_AT };
-      const std::uint8_t grp_exc[] = { OP_D_TC_CS, OP_D_MUST_CS, OP_D_SEQ_CS, OP_TC_RF2, OP_TC_STD_RF2, OP_TC_TYPE_RF2, OP_TC_RN2, OP_TC_TYPE_RN2, OP_MUST, OP_IF_MUST, OP_IF_MUST_ELSE, OP_OPT_MUST, OP_STAR_MUST, OP_LIST_MUST, OP_TC_RF, OP_TC_ANY_RF, OP_TC_STD_RF, OP_TC_TYPE_RF, OP_TC_RN, OP_TC_ANY_RN, OP_TC_STD_RN, OP_TC_TYPE_RN, OP_SEQ2, OP_SOR2, OP_STAR, OP_OPT, OP_AT, OP_W_CB2, OP_IF_APPLY };
+      const std::uint8_t grp_exc[] = { OP_MUST_MSG, OP_TC_RN_MSG, OP_TC_ANY_RN_MSG, OP_TC_STD_RN_MSG, OP_TC_TYPE_RN_MSG, OP_D_TC_CS, OP_D_MUST_CS, OP_D_SEQ_CS, OP_TC_RF2, OP_TC_STD_RF2, OP_TC_TYPE_RF2, OP_TC_RN2, OP_TC_TYPE_RN2, OP_MUST, OP_IF_MUST, OP_IF_MUST_ELSE, OP_OPT_MUST, OP_STAR_MUST, OP_LIST_MUST, OP_TC_RF, OP_TC_ANY_RF, OP_TC_STD_RF, OP_TC_TYPE_RF, OP_TC_RN, OP_TC_ANY_RN, OP_TC_STD_RN, OP_TC_TYPE_RN, OP_SEQ2, OP_SOR2, OP_STAR, OP_OPT, OP_AT, OP_W_CB2, OP_IF_APPLY };
       const std::uint8_t grp_state[] = { OP_D_SEQ_CS, OP_D_SOR_CSS, OP_D_STAR_EA, OP_D_OPT_DA, OP_D_MUST_CS, OP_D_ENABLE_DA, OP_D_DISABLE_EA, OP_D_STATE_CSS, OP_D_TC_CS, OP_D_AT_EA, OP_D_ITE_DA, OP_D_PLUS_CS, OP_D_UNTIL_EA, OP_STATE, OP_W_CS, OP_W_CSS, OP_W_EA, OP_W_DA, OP_ENABLE, OP_DISABLE, OP_AT, OP_NOT_AT, OP_MINI, OP_SEQ2, OP_SOR2, OP_STAR, OP_OPT, OP_TC_ANY_RF, OP_MUST };
       const std::uint8_t grp_limits[] = { OP_W_LB1, OP_W_LB3, OP_W_LD1, OP_W_LD2, OP_W_CB2, OP_SEQ2, OP_SEQ3, OP_SOR2, OP_STAR, OP_OPT, OP_AT, OP_NOT_AT, OP_TC_RF, OP_TC_ANY_RF, OP_PLUS, OP_UNTIL1 };
       const std::uint8_t grp_stream[] = { OP_SEQ2, OP_SEQ3, OP_SOR2, OP_STAR, OP_PLUS, OP_UNTIL1, OP_UNTIL2, OP_LIST, OP_PAD, OP_RAW, OP_REMATCH, OP_MINUS, OP_AT, OP_NOT_AT, OP_REP_MIN_MAX, OP_IF_THEN_ELSE };
